@@ -208,7 +208,7 @@ class Interp:
             f_ = fr
             while f_ is not None and why is None:
                 if f_.fn is not None:
-                    why = specs.documented_panic(f_.fn["path"], what)
+                    why = specs.documented_panic(f_.fn["path"], what, st)
                 f_ = f_.parent
             if why:
                 self.oblige(kind, fr, node, what, self.path_goal(st), True, "documented: " + why, status="requires")
